@@ -917,8 +917,13 @@ class VPick(View):
             ops = random_view_seq(rng, rng.randint(4, 12), 3, cls)
             tm = 3 if i % 3 == 0 else _savable([rng.choice(TMPLS) for _ in range(3)], ops)
             if i % 3 == 2:
+                # the `none` option is helper configuration no viewer state of glue sets; it is not part
+                # of a saved session, while a selection of None made under it is (echo re-applies an
+                # explicit None unconditionally, theorem explicit_none_accepted): histories with a
+                # restore do not flip it
+                names = [f for f in FLAG_NAMES if f != 'none'] if any(o[0] == 'rst' for o in ops) else FLAG_NAMES
                 for _ in range(rng.randint(1, 4)):
-                    ops.insert(rng.randint(0, len(ops)), ['vfl', rng.randrange(2), rng.choice(FLAG_NAMES), rng.random() < 0.5])
+                    ops.insert(rng.randint(0, len(ops)), ['vfl', rng.randrange(2), rng.choice(names), rng.random() < 0.5])
             yield [tm, nc, cls, ops]
 
 
@@ -1720,21 +1725,21 @@ class Axes(Family):
             nonlocal k
             k += 1
             return kinds[k % 3]
-        # images and tables mixed: every sequence of length 2 (thorough 3) over the full alphabet from
-        # the empty state and after both datasets became layers, for four dimension pairs; samples of
-        # the next length; random longer histories
+        # images and tables mixed: every sequence of length 2 (thorough: 3 for the pairs 3+1 and 1+2)
+        # over the full alphabet from the empty state and after both datasets became layers, for four
+        # dimension pairs; samples of the next length; random longer histories
         L1 = 2 if tier == "quick" else 3
         for nd1 in ([3, 1], [1, 2], [2, 1], [1, 1]):
             for p in ([], pre):
-                for seq in axes_sequences(nd1, L1, AXES_ALPHA, p):
+                for seq in axes_sequences(nd1, L1 if nd1[1] != 1 or nd1[0] == 3 else 2, AXES_ALPHA, p):
                     c = kind()
                     yield [nd1, [c != 'none'] * 2, [c, c], seq]
         for nd1 in ([3, 1], [1, 2]):
             allseq = list(axes_sequences(nd1, L1 + 1, AXES_ALPHA, pre))
-            for seq in rng.sample(allseq, 500 if tier == "quick" else 6000):
+            for seq in rng.sample(allseq, 500 if tier == "quick" else 3000):
                 c = kind()
                 yield [nd1, [c != 'none'] * 2, [c, c], seq]
-        for _ in range(300 if tier == "quick" else 20000):
+        for _ in range(300 if tier == "quick" else 10000):
             nd1 = rng.choice(([3, 1], [1, 2], [2, 1], [1, 3], [1, 1]))
             seq = []
             for _ in range(rng.randint(4, 10 if tier == "quick" else 14)):
@@ -1832,14 +1837,14 @@ PROP = Property(
               "C18.image_axes_distinct", "C18.image_axes_spec", "C18.image_1d_reference_crashes"],
     families=[Kinds(), Axes(), Combo(), ComboRandom(), DCombo(), VPick(), View(), ViewRandom()],
     trusted_base=["the `echo` callback-property library (SelectionCallbackProperty._choices_updated / __set__, delay_callback, CallbackList) is modelled (its selection rule) or assumed (callback ordering), validated by the correspondence families",
-                  "matplotlib / astropy WCSAxes drawing is stubbed out in the harness process (FigureCanvasAgg.draw, draw_idle): only the layer bookkeeping of the viewers is under test",
+                  "matplotlib / astropy WCSAxes drawing is stubbed out in the harness process (FigureCanvasAgg.draw, draw_idle, WCSAxes._update_tick_and_label_positions): only the layer bookkeeping of the viewers is under test",
                   "GlueSerializer / GlueUnSerializer are exercised for viewer save + restore, their effect on the bookkeeping is modelled (restored objects stand for the saved ones)",
                   "C06's collection model and invariant (Model/Collection.lean, Lemmas/C06.lean) for the datasets / subset groups underneath the viewer"],
     assumptions=["datasets enter the collection without subsets of their own; subsets are created through new_subset_group only (C06)",
-                 "viewer correspondence uses 2-d datasets of one shape for all four viewer classes; layer z-order is never edited by hand (viewer.layers is sorted by zorder)",
+                 "viewer correspondence uses 2-d datasets of one shape for all four viewer classes, plus 1-d tables / region lists as overlays in the image viewer (which refuses them by raising while it has no layer: modelled as a refused request, theorem viewer_refusing_spec); layer z-order is never edited by hand (viewer.layers is sorted by zorder)",
                  "x_att / y_att setters are called with pixel axes of the current reference data; explicit selections of None only while None is on offer (echo accepts None unconditionally: theorem explicit_none_accepted)",
                  "snapshots taken while a hub delay block is open are compared with the model but not judged by the Spec (the helper has not been told yet, by design)",
-                 "restore is checked for the scatter and image viewers; histogram / profile viewers cannot be restored on this tree (known finding C18c = C12's F12)"],
-    rule="kinds: introspection of the tree under test - every Component subclass (recursive __subclasses__, CoordinateComponent split pixel / world) must be a constructor of the model's CompClass and occur in one of the generator's datasets, every string Data.get_kind can return (read off its source + measured on the generated components) must be a constructor of the model's Kind; all 128 flag combinations x every component class (flags through the constructor / through the setters, alternating). Dataset templates of the picker families: std (categorical, datetime, numerical, pixel + world coordinate), reg (RegionData: three numerical columns + the extended region column), ext1 (Data + ExtendedComponent), dask (categorical + DaskComponent), drv (2-d, affine coordinates, derived component), bare (2-d, no coordinates). combo also: every template x all 128 flag combinations (flags before / after append_data, two orders), six template pairs x 128, an extended and a dask component added and moved to the front x 128, every pair (thorough: triple) of ops over a 27-letter alphabet on every non-standard template; combor: two thirds of the histories on random templates, ac draws from five component classes; dcombo: every fourth case on rotating templates; vpick also: every sequence of 2 / 4 ops over a 7-letter alphabet with flag flips (after both datasets became layers / entered the collection) on six template pairs, all 128 flag combinations for every picker x template pair (8 walks of 16), random histories on random templates with flag flips; viewr: half of the scatter / histogram histories on random templates. view: one extended viewer op (add_subset / remove_subset / remove_layer / state.layers.remove / restore / second-dataset ops) at every position of every core sequence (append/remove x2 datasets, new group, remove group, add_data x2, remove_data) of length 2 (quick) / 3 (thorough); every core sequence of length 4 / 5; every sequence of length 5 / 7 over a 5-letter one-dataset alphabet; viewer class rotating by case; viewr: seeded random histories of length 4-15 / 4-40 over 2-3 datasets, up to 3 groups, with restores. vpick: the x/y attribute pickers of ScatterViewerState / HistogramViewerState read in situ after every step of every core viewer history of length 3 / 4, one extended op after every core history of length 2 / 3, 150 / 6000 random histories. combo: every sequence of 3 ops over a 25-letter core alphabet after helper.append_data + every pair over the full 39-letter alphabet after three prefixes (thorough: triples over the full alphabet, 4-sequences over 19 letters); combor: random length 4-15 / 4-40. dcombo: every sequence of length 3-4 / 4-5 over 12-15 letters for both helper classes and two initial collections. axes: every setter sequence of length 3 (thorough 4, all three coordinate kinds) on a 3-d and a 2-d reference dataset, every sequence of length 2 (thorough 4) over the full 18-letter alphabet incl. reference-data changes and layers coming and going, samples of the next length. non-trivial = the history touches both sides (e.g. add_data and a collection change).",
+                 "restore is checked for all four viewer classes (histogram / profile viewers with layers need C12's fix F12b; glue_qt is not installed, so their layer-artist records load as the live classes)"],
+    rule="kinds: introspection of the tree under test - every Component subclass (recursive __subclasses__, CoordinateComponent split pixel / world) must be a constructor of the model's CompClass and occur in one of the generator's datasets, every string Data.get_kind can return (read off its source + measured on the generated components) must be a constructor of the model's Kind; all 128 flag combinations x every component class (flags through the constructor / through the setters, alternating). Dataset templates of the picker families: std (categorical, datetime, numerical, pixel + world coordinate), reg (RegionData: three numerical columns + the extended region column), ext1 (Data + ExtendedComponent), dask (categorical + DaskComponent), drv (2-d, affine coordinates, derived component), bare (2-d, no coordinates). combo also: every template x all 128 flag combinations (flags before / after append_data, two orders), six template pairs x 128, an extended and a dask component added and moved to the front x 128, every pair (thorough: triple) of ops over a 27-letter alphabet on every non-standard template; combor: two thirds of the histories on random templates, ac draws from five component classes; dcombo: every fourth case on rotating templates; vpick also: every sequence of 2 / 4 ops over a 7-letter alphabet with flag flips (after both datasets became layers / entered the collection) on six template pairs, all 128 flag combinations for every picker x template pair (8 walks of 16), random histories on random templates with flag flips; viewr: half of the scatter / histogram histories on random templates. view: one extended viewer op (add_subset / remove_subset / remove_layer / state.layers.remove / restore / second-dataset ops) at every position of every core sequence (append/remove x2 datasets, new group, remove group, add_data x2, remove_data) of length 2 (quick) / 3 (thorough); every core sequence of length 4 / 5; every sequence of length 5 / 7 over a 5-letter one-dataset alphabet; viewer class rotating by case; viewr: seeded random histories of length 4-15 / 4-40 over 2-3 datasets, up to 3 groups, with restores. vpick: the x/y attribute pickers of ScatterViewerState / HistogramViewerState read in situ after every step of every core viewer history of length 3 / 4, one extended op after every core history of length 2 / 3, 150 / 6000 random histories. combo: every sequence of 3 ops over a 25-letter core alphabet after helper.append_data + every pair over the full 39-letter alphabet after three prefixes (thorough: triples over the full alphabet, 4-sequences over 19 letters); combor: random length 4-15 / 4-40. dcombo: every sequence of length 3-4 / 4-5 over 12-15 letters for both helper classes and two initial collections. axes: every setter sequence of length 3 (thorough 4, all three coordinate kinds) on a 3-d and a 2-d reference dataset, every sequence of length 2 (thorough 4) over the full 18-letter alphabet incl. reference-data changes and layers coming and going, samples of the next length; images and 1-d tables mixed (dimension pairs 3+1, 1+2, 2+1, 1+1; tables get ScatterLayerStates as in the viewer): every sequence of length 2 (thorough 3) over the full alphabet from the empty state and after both became layers, samples of the next length, random histories. view also: save + restore of all four viewer classes inside the core histories; image viewer with a table / region list (templates std, reg, ext1) next to an image: every sequence of 3 (thorough 4) ops over an 8-letter alphabet (add_data / remove_data of both, dc.remove of the image, new group, state.layers.remove of the image, restore) after both became layers, of 2 (3) after both entered the collection; viewr: half of the image-viewer histories on mixed image / table templates. non-trivial = the history touches both sides (e.g. add_data and a collection change).",
     partial_note="Partial for per-viewer State subclasses: 'all callback-property values of State subclasses' is covered only as far as ImageViewerState's axis attributes, the viewers' layers list and the SelectionCallbackProperty rule; other callback properties (limits, colours, ...) are not modelled.",
 )
